@@ -6,9 +6,34 @@ func genC07Rest(g *Gen) error {
 		encTime = "lib/encoding/timestamp.go"
 		encBool = "lib/encoding/bool.go"
 		bits    = "lib/util/lifted/go-bitstream/bitstream.go"
+		cmpF    = "lib/compress/float.go"
+		cmpC    = "lib/compress/compress.go"
+		encF    = "lib/encoding/float.go"
 	)
 	if err := g.srcDef(encTime, "scale", "src_scale"); err != nil {
 		return err
+	}
+	for _, c := range []string{"floatCompressedNull", "floatCompressedOldGorilla", "floatCompressedSnappy",
+		"floatCompressedGorilla", "floatCompressedSame", "floatCompressedRLE", "floatCompressMLF",
+		"floatCompressThreshold", "floatRLECompressThreshold"} {
+		if err := g.natConst(cmpF, c, c, nil); err != nil {
+			return err
+		}
+	}
+	if err := g.natConst(cmpC, "RLEBlockLimit", "rleBlockLimit", nil); err != nil {
+		return err
+	}
+	for _, f := range [][3]string{
+		{cmpF, "GenerateContext", "src_generateContext"},
+		{cmpF, "Context.Same", "src_ctxSame"},
+		{cmpF, "Context.RLE", "src_ctxRLE"},
+		{cmpF, "Context.Snappy", "src_ctxSnappy"},
+		{cmpF, "Context.NotCompress", "src_ctxNotCompress"},
+		{cmpC, "RLE.SameValueEncoding", "src_sameValueEncoding"},
+	} {
+		if err := g.srcDef(f[0], f[1], f[2]); err != nil {
+			return err
+		}
 	}
 	for _, f := range [][3]string{
 		{encTime, "Time.encodingInit", "fp_timeEncodingInit"},
@@ -28,6 +53,19 @@ func genC07Rest(g *Gen) error {
 		{bits, "BitWriter.WriteBit", "fp_bitWriteBit"},
 		{bits, "BitWriter.Flush", "fp_bitFlush"},
 		{bits, "BitReader.ReadBit", "fp_bitReadBit"},
+		{cmpF, "Float.adaptiveEncoding", "fp_floatAdaptiveEncoding"},
+		{cmpF, "Float.AdaptiveDecoding", "fp_floatAdaptiveDecoding"},
+		{cmpF, "Float.compressNull", "fp_floatCompressNull"},
+		{cmpC, "RLE.SameValueDecoding", "fp_sameValueDecoding"},
+		{cmpC, "RLE.Encoding", "fp_rleEncoding"},
+		{cmpC, "RLE.Decoding", "fp_rleDecoding"},
+		{cmpC, "paddingBuffer", "fp_paddingBuffer"},
+		{cmpC, "SnappyEncoding", "fp_snappyEncoding"},
+		{cmpC, "SnappyDecoding", "fp_snappyDecoding"},
+		{cmpC, "GorillaEncoding", "fp_gorillaEncoding"},
+		{cmpC, "GorillaDecoding", "fp_gorillaDecoding"},
+		{encF, "Float.Encoding", "fp_encFloatEncoding"},
+		{encF, "Float.Decoding", "fp_encFloatDecoding"},
 	} {
 		if err := g.fpDef(f[0], f[1], f[2]); err != nil {
 			return err
